@@ -866,6 +866,53 @@ impl Integer for u128 {
     }
 }
 
+#[cfg(feature = "verif-hooks")]
+impl Integer for u8 {
+    type TryFromUsizeError = <Self as TryFrom<usize>>::Error;
+    type TryIntoU64Error = <Self as TryInto<u64>>::Error;
+
+    fn zero() -> Self {
+        0
+    }
+
+    fn one() -> Self {
+        1
+    }
+
+    fn checked_ilog2(&self) -> Option<u32> {
+        u8::checked_ilog2(*self)
+    }
+
+    fn checked_add(&self, rhs: Self) -> Option<Self> {
+        u8::checked_add(*self, rhs)
+    }
+}
+
+#[cfg(feature = "verif-hooks")]
+impl Integer for u16 {
+    type TryFromUsizeError = <Self as TryFrom<usize>>::Error;
+    type TryIntoU64Error = <Self as TryInto<u64>>::Error;
+
+    fn zero() -> Self {
+        0
+    }
+
+    fn one() -> Self {
+        1
+    }
+
+    fn checked_ilog2(&self) -> Option<u32> {
+        u16::checked_ilog2(*self)
+    }
+
+    fn checked_add(&self, rhs: Self) -> Option<Self> {
+        u16::checked_add(*self, rhs)
+    }
+}
+
+#[cfg(feature = "verif-hooks")]
+pub mod verif;
+
 make_field!(
     /// `GF(4293918721)`, a 32-bit field.
     FieldPrio2,
